@@ -76,6 +76,44 @@ def _nested_typename(c):
     return False
 
 
+_SPEC_SHARED = {("Struct", "TypeDecl", "type"), ("Union", "TypeDecl", "type"), ("Enum", "TypeDecl", "type"),
+                # the same kind of sharing for the other specifier that is a node:
+                # `_Alignas(8) int x, y;` puts one Alignas into both Decl.align lists
+                ("Alignas", "Decl", "align")}
+
+
+def _shared_node(ast):
+    """Structural invariant on every parsed AST: no c_ast.Node object is
+    reachable twice (walk over __slots__, identity based) - except the one
+    specifier node (Struct/Union/Enum, Alignas) that the declarators of one
+    declaration share.  Returns a signature or None."""
+    from pycparser import c_ast
+
+    Node = c_ast.Node
+    seen = set()
+    stack = [(ast, "-", "-")]
+    while stack:
+        node, pcls, fld = stack.pop()
+        cls = node.__class__.__name__
+        i = id(node)
+        if i in seen:
+            if (cls, pcls, fld) in _SPEC_SHARED:
+                continue
+            return f"shared-node:{cls} under {pcls}.{fld}"
+        seen.add(i)
+        for sl in node.__slots__:
+            if sl == "coord" or sl == "__weakref__":
+                continue
+            v = getattr(node, sl)
+            if isinstance(v, Node):
+                stack.append((v, cls, sl))
+            elif isinstance(v, (list, tuple)):
+                for e in v:
+                    if isinstance(e, Node):
+                        stack.append((e, cls, sl))
+    return None
+
+
 def _sort_quals(c):
     """Canon with every `quals` tuple sorted (qualifier order is not claimed
     where an atomic specifier is mixed with qualifiers)."""
@@ -115,6 +153,9 @@ class Acc:
             r = ("rejected", str(out[1:])[:200], False)
         else:
             self.parsed += 1
+            sh = _shared_node(out[1])
+            if sh is not None:
+                self.fail(sh, {"text": text, "shared_node_check": True}, sh)
             got = core.canon(out[1])
             if norm:
                 got, exp = norm(got), norm(exp)
@@ -602,6 +643,9 @@ def _work_c_complit(task):
                 A.fail("c:compound-literal:rejected", {"text": text, "family": "c-complit"}, str(out[1:])[:200])
                 continue
             A.parsed += 1
+            sh = _shared_node(out[1])
+            if sh is not None:
+                A.fail(sh, {"text": text, "shared_node_check": True}, sh)
             got = core.canon(out[1])
             init = _collect(got, "CompoundLiteral", [])
             have = _collect(init, "Alignas", [])
@@ -687,8 +731,69 @@ def _use(S, usage):
     raise ValueError(usage)
 
 
+# base specifiers of unnamed bit-fields (all different types / qualifiers)
+BF_SPECS = [dm.S_INT, _w("unsigned"), _w("long"), (("qual", "const"), ("word", "int")), dm.S_T]
+
+
+def _join_units(units):
+    """Several place() results as one translation unit."""
+    toks, ext = [], []
+    for t, e in units:
+        toks += t
+        ext += list(dict(e[1])["ext"])
+    return toks, dm.N("FileAST", ext=ext)
+
+
+def _bf(spec, *fields):
+    """Member declaration `spec f1, f2, ...;` with fields (name|None, width)."""
+    return Decln(spec, tuple(Dtor(n, (), None, ("c", str(w))) for n, w in fields))
+
+
+def _bitfield_units():
+    """Member lists with >= 2 unnamed bit-fields of different base specifiers:
+    every ordered pair (and triple) over BF_SPECS, as separate declarations,
+    mixed with named bit-fields in the same declaration, nested, and spread
+    over two structs of one translation unit."""
+    plain = Decln(dm.S_INT, (Dtor("z", (), None, None),))
+    for kw in ("struct", "union"):
+        def su(tag, members):
+            return ("su", kw, tag, tuple(members))
+
+        def var(S, name="v", with_T=None):
+            return dm.place("file", Decln((S,), (Dtor(name, (), None, None),)), with_T=with_T)
+
+        for A_, B_ in itertools.product(BF_SPECS, repeat=2):
+            yield [var(su(None, [_bf(A_, (None, 3)), _bf(B_, (None, 0))]))]
+            yield [var(su("S", [_bf(A_, (None, 3)), plain, _bf(B_, (None, 2))]))]
+            yield [var(su(None, [_bf(A_, ("a", 1), (None, 2)), _bf(B_, (None, 5))]))]
+            yield [var(su(None, [_bf(A_, (None, 2), ("b", 1)), _bf(B_, (None, 5), (None, 6))]))]
+            yield [var(su(None, [_bf(A_, (None, 1), (None, 2)), _bf(B_, ("c", 4), (None, 3), ("d", 2))]))]
+            inner = Decln((su(None, [_bf(B_, (None, 1))]),), (Dtor("in", (), None, None),))
+            yield [var(su(None, [_bf(A_, (None, 3)), inner]))]
+            yield [var(su(None, [inner, _bf(A_, (None, 3))]))]
+            # two structs in one translation unit
+            yield [var(su("M1", [_bf(A_, (None, 3))]), "v", True), var(su("M2", [_bf(B_, (None, 4))]), "w", False)]
+            yield [dm.place("file", Decln((su("M1", [_bf(A_, (None, 3))]),), ()), with_T=True),
+                   dm.place("block", Decln((su("M2", [_bf(B_, (None, 4)), _bf(A_, ("e", 1))]),),
+                                           (Dtor("w", (), None, None),)), with_T=False)]
+        for A_, B_, C_ in itertools.product(BF_SPECS, repeat=3):
+            yield [var(su(None, [_bf(A_, (None, 1)), _bf(B_, (None, 2)), _bf(C_, (None, 3))]))]
+
+
+def _work_d_bitfields(_arg):
+    A = Acc()
+    for units in _bitfield_units():
+        toks, exp = _join_units(units) if len(units) > 1 else units[0]
+        A.states += 1
+        A.trans += len(toks)
+        A.case(dm.text(toks), exp, lambda r: f"d:unnamed-bit-fields:{r[0]}", {"family": "d"})
+    return A.out()
+
+
 def _work_d(task):
     what, arg = task
+    if what == "bitfields":
+        return _work_d_bitfields(arg)
     A = Acc()
     if what == "su":
         kinds_first, maxlen = arg
@@ -907,12 +1012,37 @@ def _g_pair(A, ctx, t1, e1, t2, e2, tag, norm=None):
     A.case(t1, e1, mk, {"family": "g", "ctx": ctx, "text2": t2}, norm)
 
 
+def _derived_multi_plan(level):
+    """(inner type-name sequences, inner bases, declarator-sequence tuples).
+    level 1 (quick): pairs of sequences <= 1, triples over a 4-sequence set;
+    level 2 (thorough): + triples of sequences <= 1, pairs of sequences <= 2
+    (the latter with the first three inner sequences and base int only - done
+    by the caller through `level 3`)."""
+    inner = [(Ptr(),), (Ptr(), Ptr()), (Ptr(), Fn("void")), (Ptr(), Ptr("const")),
+             (Ptr(), Arr("N")), (Ptr(), Fn("named")), (Ptr(), Ptr(), Fn("int"))]
+    bases = [dm.S_INT, dm.S_T, S_STRUCT]
+    s1 = dm.sequences(1)
+    small = [(), (Ptr(),), (Arr("N"),), (Fn("void"),)]
+    if level == 3:
+        s2 = dm.sequences(2)
+        return inner[:3], bases[:1], [(a, b) for a in s2 for b in s2 if len(a) == 2 or len(b) == 2]
+    combos = [(a,) for a in s1] + [(a, b) for a in s1 for b in s1]
+    if level == 1:
+        combos += list(itertools.product(small, repeat=3))
+    else:
+        combos += list(itertools.product(s1, repeat=3))
+    return inner, bases, combos
+
+
 def _work_g(task):
     what, ctx, maxlen = task
     A = Acc()
     param = ctx in dm.PARAM_CONTEXTS
     funcdef = ctx == "funcdef"
     name = None if ctx in dm.ABSTRACT_CONTEXTS else "x"
+    shard = None
+    if isinstance(maxlen, tuple):
+        maxlen, shard = maxlen[0], maxlen[1:]
     seqs = dm.sequences(maxlen, param=param)
     if funcdef:
         seqs = [s for s in seqs if s and s[0][0] == "fn"]
@@ -968,6 +1098,39 @@ def _work_g(task):
                         A.skipped += 1
                         continue
                     _g_pair(A, ctx, dm.text(t1), e1, dm.text(t2), e2, "atomic-spec+qualifier", _sort_quals)
+    elif what == "derived-multi":
+        # _Atomic(B * ...) D1, D2 [, D3]   vs   B  D1 ++ (* _Atomic ...), D2 ++ ..., ...
+        inner_seqs, inner_bases, combos = _derived_multi_plan(maxlen)
+        if shard:
+            combos = combos[shard[0]::shard[1]]
+        names = ("p", "q", "r")
+        for combo in combos:
+            for iseq in inner_seqs:
+                A.states += 1
+                A.trans += sum(len(x) for x in combo) + len(iseq) + 1
+                for ib in inner_bases:
+                    try:
+                        d1 = Decln(_atomic_spec(ib, iseq),
+                                   tuple(Dtor(names[k], sq, None, None) for k, sq in enumerate(combo)))
+                        t1, e1 = dm.place(ctx, d1)
+                    except dm.Unrenderable:
+                        A.skipped += 1
+                        continue
+                    mk = lambda r: ("g:atomic-spec:TypeDecl.type:Typename-not-merged" if r[2]  # noqa: E731
+                                    else f"g:atomic-spec-derived-multi:{r[0]}")
+                    A.case(dm.text(t1), e1, mk, {"family": "g", "ctx": ctx})
+                    try:
+                        d2 = Decln(ib, tuple(Dtor(names[k], sq + (Ptr("_Atomic"),) + iseq[1:], None, None)
+                                             for k, sq in enumerate(combo)))
+                        t2, e2 = dm.place(ctx, d2)
+                    except dm.Unrenderable:
+                        A.skipped += 1   # C has no qualifier spelling for this one
+                        continue
+                    if e1 != e2:
+                        A.fail("g:model-inconsistent", {"text": dm.text(t1), "text2": dm.text(t2)},
+                               "model bug: the two spellings have different expectations")
+                    A.case(dm.text(t2), e2, lambda r: f"g:atomic-spec-derived-multi:qualifier-spelling:{r[0]}",
+                           {"family": "g", "ctx": ctx})
     elif what == "multi":
         # _Atomic(int) x, *y;
         for s1 in seqs:
@@ -1058,6 +1221,8 @@ def run(tier):
         e_nodes=3 if quick else 4, e_depth=2, e_designator_chain=2,
         f_knr_params=2, f_rest=1 if quick else 2,
         g_len=2 if quick else 3, g_multi_len=1 if quick else 2,
+        g_derived_multi="pairs of sequences <=1 and triples over 4 sequences x 7 derived type names x 3 bases" if quick
+        else "pairs and triples of sequences <=1 x 7 derived type names x 3 bases; pairs of sequences <=2 x 3 type names",
         h_len=2 if quick else 3,
         audit_len=3 if quick else 4,
     )
@@ -1127,7 +1292,7 @@ def run(tier):
     lap("c")
 
     # (d)
-    tasks = [("su", (k, B["d_members"])) for k in MEMBER_KINDS] + [("enum", B["d_enumerators"])]
+    tasks = [("su", (k, B["d_members"])) for k in MEMBER_KINDS] + [("enum", B["d_enumerators"]), ("bitfields", None)]
     for res in core.pmap(_work_d, tasks, chunksize=1):
         T.merge("d", res)
 
@@ -1165,6 +1330,10 @@ def run(tier):
         tasks.append(("mixed", ctx, B["g_len"] - 1))
     for ctx in B_CTX:
         tasks.append(("multi", ctx, B["g_multi_len"]))
+        for sh in range(8):
+            tasks.append(("derived-multi", ctx, (1 if quick else 2, sh, 8)))
+            if not quick:
+                tasks.append(("derived-multi", ctx, (3, sh, 8)))
     for res in core.pmap(_work_g, tasks, chunksize=1):
         T.merge("g", res)
 
@@ -1237,6 +1406,10 @@ def replay(rep):
     if out[0] != "ok":
         print("outcome :", out[:2])
         return 1
+    if c.get("shared_node_check"):
+        sh = _shared_node(out[1])
+        print("node identity:", sh or "no node is reachable twice")
+        return 1 if sh else 0
     if "expected_alignas_in_order" in c:
         g = core.canon(out[1])
         have = dm.to_jsonable(tuple(_collect(_collect(g, "CompoundLiteral", []), "Alignas", [])))
